@@ -150,7 +150,50 @@ def make(name, scale=1.0, shift=0j, rot=0):
 # How a segment came into being.  Every entry returns the SAME curve (same defining values, up to the type of
 # the numbers), but as the library itself hands it out: with numpy scalars, with caches filled, re-created from
 # derived values.  A harness shard with {'prov': p} runs all its cases on such objects, against unchanged oracles.
-PROVENANCES = ['reversed_twice', 'via_d_string', 'translated_0', 'scaled_1', 'rotated_0', 'cropped_full', 'numpy_scalars', 'warmed']
+PROVENANCES = ['reversed_twice', 'via_d_string', 'translated_0', 'scaled_1', 'rotated_0', 'cropped_full', 'numpy_scalars', 'warmed', 'loosely_measured', 'loosely_measured_reversed_twice',
+               'strict_arc', 'module_settings_changed_and_restored']
+
+
+def strict_arc(seg):
+    """the same Arc constructed with autoscale_radius=False (radii that do not fit are refused instead of enlarged);
+    the arc itself when it is not constructible that way (radii were enlarged, or fit only up to rounding)"""
+    if not isinstance(seg, Arc):
+        return seg
+    try:
+        q = Arc(seg.start, seg.radius, seg.rotation, seg.large_arc, seg.sweep, seg.end, autoscale_radius=False)
+    except Exception:
+        return seg
+    return q if _same_path([seg], [q]) else seg
+
+
+def with_module_settings_changed(obj):
+    """the documented module-level settings of svgpathtools.path are changed, the object is measured, the settings
+    are restored: nothing measured meanwhile may be remembered as a default-accuracy answer"""
+    import warnings
+    import svgpathtools.path as sp
+    names = ['LENGTH_ERROR', 'LENGTH_MIN_DEPTH', 'ILENGTH_ERROR', 'ILENGTH_MIN_DEPTH', 'ILENGTH_S_TOL', 'ILENGTH_MAXITS', 'USE_SCIPY_QUAD']
+    old = {n: getattr(sp, n) for n in names if hasattr(sp, n)}
+    try:
+        pts = [q for sg in (obj if hasattr(obj, 'continuous_subpaths') else [obj]) for q in (sg.start, sg.end)]
+        size = max(abs(q) for q in pts) + abs(pts[0] - pts[-1]) + 1e-300
+    except Exception:
+        size = 1.0
+    try:
+        for n, v in (('LENGTH_ERROR', size), ('LENGTH_MIN_DEPTH', 0), ('ILENGTH_ERROR', size), ('ILENGTH_MIN_DEPTH', 0),
+                     ('ILENGTH_S_TOL', 0.1 * size), ('ILENGTH_MAXITS', 5), ('USE_SCIPY_QUAD', False)):
+            if n in old:
+                setattr(sp, n, v)
+        with warnings.catch_warnings():
+            warnings.simplefilter('ignore')
+            for q in (lambda: obj.length(), lambda: obj.ilength(0.3 * obj.length()), lambda: obj.length()):
+                try:
+                    q()
+                except Exception:
+                    pass
+    finally:
+        for n, v in old.items():
+            setattr(sp, n, v)
+    return obj
 
 
 def derive(seg, prov):
@@ -158,6 +201,10 @@ def derive(seg, prov):
         return seg
     import numpy as np
     from svgpathtools import parse_path
+    if prov == 'strict_arc':
+        return strict_arc(seg)
+    if prov == 'module_settings_changed_and_restored':
+        return with_module_settings_changed(seg)
     if prov == 'reversed_twice':
         return seg.reversed().reversed()
     if prov == 'via_d_string':
@@ -182,14 +229,58 @@ def derive(seg, prov):
         with warnings.catch_warnings():
             warnings.simplefilter('ignore')
             for q in (lambda: seg.length(), lambda: seg.bbox(), lambda: seg.length(0.1, 0.6), lambda: seg.point(0.3),
+                      lambda: seg.length(0.5), lambda: seg.length(t1=0.5), lambda: seg.length(1, 0), lambda: seg.length(0, 0), lambda: seg.length(1, 1),
                       lambda: seg.derivative(0.3), lambda: getattr(seg, 'poly', lambda: None)(), lambda: seg.reversed(), lambda: hash(seg)):
                 try:
                     q()
                 except Exception:
                     pass
         return seg
+    if prov in ('loosely_measured', 'loosely_measured_reversed_twice'):
+        loosely_measure(seg)
+        if prov == 'loosely_measured':
+            return seg
+        try:
+            q = seg.reversed().reversed()
+        except Exception:
+            return seg
+        return q if _same_path([seg], [q]) else seg
     raise ValueError(prov)
 
+
+def fresh_copy(seg):
+    """a new segment built from the public attributes only (no cache, no history)"""
+    if isinstance(seg, Arc):
+        return Arc(seg.start, seg.radius, seg.rotation, seg.large_arc, seg.sweep, seg.end)
+    return type(seg)(*seg.bpoints())
+
+
+def loosely_measure(obj):
+    """ask for lengths with deliberately loose accuracy options (a caller who only wanted an estimate): error of the
+    order of the object's size, min_depth 0, whole and partial, in both argument styles - later default-accuracy
+    answers must not be affected.  (Only loose calls: a default-accuracy call in between would legitimately
+    leave accurate values behind.)"""
+    import warnings
+    try:
+        pts = [q for sg in (obj if hasattr(obj, 'continuous_subpaths') else [obj]) for q in (sg.start, sg.end)]
+        size = max(abs(q) for q in pts) + abs(pts[0] - pts[-1]) + 1e-300
+    except Exception:
+        size = 1.0
+    is_path = hasattr(obj, 'continuous_subpaths')
+    calls = [lambda: obj.length(error=size, min_depth=0), lambda: obj.length(0, 1, 0.3 * size, 0)]
+    if not is_path:
+        # (a partial length or an ilength of a Path goes through T2t / t2T, which legitimately recomputes everything at default accuracy)
+        calls += [lambda: obj.length(0.5, 1, error=size, min_depth=0), lambda: obj.length(0.25, 0.75, size, 1),
+                  lambda: obj.length(1, 0, error=size, min_depth=0)]
+        calls += [lambda: obj.ilength(0.3 * obj.length(error=size, min_depth=0), s_tol=0.1 * size, maxits=20, error=size, min_depth=0)]
+    calls += [lambda: obj.length(error=size, min_depth=0)]
+    with warnings.catch_warnings():
+        warnings.simplefilter('ignore')
+        for q in calls:
+            try:
+                q()
+            except Exception:
+                pass
 
 
 def provenance_shards(shards, tier, is_segment_shard, key='prov', values=None):
@@ -212,7 +303,9 @@ def provenance_shards(shards, tier, is_segment_shard, key='prov', values=None):
 
 # The same for whole paths: the path under test is replaced by an equal path as the library hands it out.
 PATH_PROVENANCES = ['parsed', 'parsed_Z', 'reversed_twice', 'translated_0', 'rotated_0', 'scaled_1', 'measured',
-                    'subpath_object', 'document', 'scaled_there_and_back', 'copied']
+                    'subpath_object', 'document', 'scaled_there_and_back', 'copied',
+                    'loosely_measured', 'segments_loosely_measured', 'loosely_measured_reversed_twice',
+                    'strict_arcs', 'module_settings_changed_and_restored']
 
 
 def derive_path(p):
@@ -245,6 +338,7 @@ def derive_path(p):
             q = p.scaled(1.0)
         elif prov == 'measured':
             for f in (lambda: p.length(), lambda: p.point(0.3), lambda: p.bbox(), lambda: p.start, lambda: p.end,
+                      lambda: p.length(0.5), lambda: p.length(T1=0.5), lambda: p.length(0.2, 0.7), lambda: [sg.length(0.5) for sg in p],
                       lambda: p.isclosed() if p.iscontinuous() else None, lambda: p.T2t(0.6), lambda: p.d()):
                 try:
                     f()
@@ -275,6 +369,25 @@ def derive_path(p):
             q = p.scaled(2.0).scaled(0.5)
         elif prov == 'copied':
             q = copy.copy(p)
+        elif prov == 'loosely_measured':
+            loosely_measure(p)
+            return p
+        elif prov == 'module_settings_changed_and_restored':
+            return with_module_settings_changed(p)
+        elif prov == 'strict_arcs':
+            q = Path(*[strict_arc(sg) for sg in p])
+        elif prov == 'segments_loosely_measured':
+            for sg in p:
+                loosely_measure(sg)
+            return p
+        elif prov == 'loosely_measured_reversed_twice':
+            for sg in p:
+                loosely_measure(sg)
+            loosely_measure(p)
+            try:
+                q = p.reversed().reversed()
+            except Exception:
+                return p
         else:
             raise ValueError(prov)
     return q if _same_path(p, q) else p
